@@ -17,6 +17,9 @@ type Bounds struct {
 	EnvDevs     int
 	StepLimit   int
 	MaxExec     int // cap on executions (0 = none)
+	// Stop, when set, is polled before every execution: the exploration ends
+	// (Capped) as soon as it returns true (internal deadline of the check).
+	Stop func() bool
 }
 
 type Stats struct {
@@ -59,6 +62,10 @@ func Explore(sc Scenario, b Bounds, onExec func(choices []int, e *shim.Execution
 	var rec func(prefix []int)
 	rec = func(prefix []int) {
 		if b.MaxExec > 0 && st.Executions >= b.MaxExec {
+			st.Capped = true
+			return
+		}
+		if b.Stop != nil && b.Stop() {
 			st.Capped = true
 			return
 		}
